@@ -28,9 +28,9 @@ BYTE_FAULTS = ["bitflip", "overwrite", "delete_range", "dup_range", "zero_range"
 XML_STRUCT_FAULTS = [
     "el_delete", "el_dup", "el_retag", "el_reorder", "el_move", "text_corrupt", "attr_corrupt", "attr_delete", "attr_add",
     "child_in_simple", "xsi_type_bad", "xsi_type_empty", "xsi_type_unbound", "xsi_nil_true", "xsi_nil_false", "undeclared_prefix",
-    "wrong_root", "dup_attr", "prolog_encoding", "prolog_doctype", "ns_change",
+    "wrong_root", "dup_attr", "prolog_encoding", "prolog_doctype", "ns_change", "el_dup_many", "nest_self", "text_long", "attr_many",
 ]
-JSON_STRUCT_FAULTS = ["key_delete", "key_rename", "value_junk", "list_wrap", "list_unwrap", "key_add"]
+JSON_STRUCT_FAULTS = ["key_delete", "key_rename", "value_junk", "list_wrap", "list_unwrap", "key_add", "list_grow", "nest_value"]
 XSI_TYPES = ["nosuchtype", "xs:nosuch", "item", "dog", "xs:int", "xs:QName", "xs:date", "xs:hexBinary", "xs:base64Binary", "xs:boolean", "xs:duration", "xs:dateTime", "xs:gYear",
              "xs:decimal", "xs:float", "xs:NMTOKENS", "xs:anyURI", "xs:NOTATION", "xs:time", "xs:unsignedByte", "xs:anyType", "xs:anySimpleType", "xs:string", "xs:language", "xs:IDREFS"]
 JUNK_TEXT = ["", " ", "abc", "-1", "1e999", "NaN", "2020-13-45", "true1", "99999999999999999999999999", "0x10", "p:undeclared", "{", "{urn:x}y", "١٢٣", "1 2 3", "--", "P", "24:00:00", "x" * 300, "\t\n", "1.5.5", "+", "é"]
@@ -182,6 +182,23 @@ def apply_xml_struct_fault(data, f):
             if el.getparent() is None:
                 return data, False
             el.addnext(copy.deepcopy(el))
+        elif k == "el_dup_many":
+            if el.getparent() is None:
+                return data, False
+            for _ in range([20, 60, 150][f["val"] % 3]):
+                el.addnext(copy.deepcopy(el))
+        elif k == "nest_self":
+            depth = [4, 12, 40][f["val"] % 3]
+            inner = el
+            for _ in range(depth):
+                sub = etree.SubElement(inner, el.tag, attrib=dict(el.attrib))
+                sub.text = el.text
+                inner = sub
+        elif k == "text_long":
+            el.text = ((el.text or "x") + " ") * [50, 400, 2000][f["val"] % 3]
+        elif k == "attr_many":
+            for i in range([10, 50, 200][f["val"] % 3]):
+                el.set(f"extra{i}" if f["idx2"] % 2 else "{urn:many}a%d" % i, "v%d" % i)
         elif k == "el_retag":
             el.tag = [el2.tag, "{urn:nowhere}zz", "zz", el.tag.split("}")[-1] if isinstance(el.tag, str) else "q"][f["val"] % 4]
         elif k == "el_reorder":
@@ -291,6 +308,16 @@ def apply_json_struct_fault(value, f):
             return _set(value, path, junk), True
         if k == "list_wrap":
             return _set(value, path, [_get(value, path)]), True
+        if k == "list_grow":
+            cur = _get(value, path)
+            if isinstance(cur, list) and cur:
+                return _set(value, path, cur * [10, 40, 120][f["val"] % 3]), True
+            return _set(value, path, [cur] * [10, 40, 120][f["val"] % 3]), True
+        if k == "nest_value":
+            cur = _get(value, path)
+            for _ in range([3, 10, 30][f["val"] % 3]):
+                cur = {"value": cur} if f["idx2"] % 2 else [cur]
+            return _set(value, path, cur), True
         if k == "list_unwrap":
             cur = _get(value, path)
             if isinstance(cur, list) and cur:
@@ -500,8 +527,11 @@ def run_case(case, context, meter, base_steps):
     dec = case["decoder"]
     tool = make_decoder(case, context)
     key = case_key(case)
-    budget = 20 * base_steps.get(key, 2000) + 20000
-    out = {"landed": landed, "budget": budget}
+    valid_len = len(Store.xml[case["doc"]][0]) if dec.startswith("xml") else len(Store.json[case["doc"]][0])
+    got_len = len(payload) if isinstance(payload, (bytes, str)) else len(json.dumps(payload, default=str))
+    growth = max(1.0, got_len / max(1, valid_len))
+    budget = int(20 * base_steps.get(key, 2000) * growth) + 20000
+    out = {"landed": landed, "budget": budget, "growth": growth}
     reader = None
     meter.start(budget)
     try:
@@ -616,7 +646,7 @@ def run_batch_cases(cases, emit):
         if out["landed"]:
             for f in case["faults"]:
                 summary["fired"][f["k"]] = summary["fired"].get(f["k"], 0) + 1
-        ratio = out["steps"] / max(1, base[key])
+        ratio = out["steps"] / max(1, base[key]) / out.get("growth", 1.0)
         if oc != "budget" and ratio > summary["max_ratio"]:
             summary["max_ratio"] = ratio
         if out["landed"] and oc != "instance":
